@@ -194,7 +194,7 @@ CloseStartOn(S, e, why) == IF S.sclosed[e] THEN S ELSE [SweepOn(S, e, why) EXCEP
 \* the stream count reached zero: singleplex closes the session, otherwise the inactivity check is re-armed
 AfterCountZero(S, e) ==
   IF S.count[e] # 0 THEN S
-  ELSE IF Singleplex THEN CloseStartOn(S, e, "single")
+  ELSE IF Singleplex /\ e = "c" THEN CloseStartOn(S, e, "single")   \* only the client is ever singleplex (NumConn <= 0); the server's sessions never are
   ELSE IF e = TimerEp THEN [S EXCEPT !.timers[e] = @ + 1] ELSE S
 
 \* sb.send by e; the connection is the caller's nondeterministic choice among the published ids.
